@@ -20,10 +20,15 @@ CONSTANTS BMod, BRem      \* the trees compared with: those with BHash % BMod = 
 VARIABLE h                \* [live |-> BOOLEAN, A |-> topology, B |-> topology, meas |-> BOOLEAN]
 hvars == <<h, pair>>
 
-RECURSIVE SumCard(_)
-SumCard(F) == IF F = {} THEN 0
-              ELSE LET c == CHOOSE x \in F : TRUE IN Cardinality(c) + SumCard(F \ {c})
-BHash(F) == 3 * Cardinality(F) + SumCard(F)
+TipSeq == SetToSeq(Tips)
+TipRank(t) == CHOOSE i \in 1..Len(TipSeq) : TipSeq[i] = t
+RECURSIVE Weight(_, _)      \* a label-dependent weight of a set of tips / of a cluster family
+Weight(c, k) == IF c = {} THEN 0
+                ELSE LET t == CHOOSE x \in c : TRUE IN k * TipRank(t) * TipRank(t) + Weight(c \ {t}, k)
+RECURSIVE SumWeight(_)
+SumWeight(F) == IF F = {} THEN 0
+                ELSE LET c == CHOOSE x \in F : TRUE IN Weight(c, Cardinality(c)) + SumWeight(F \ {c})
+BHash(F) == 3 * Cardinality(F) + SumWeight(F)
 Others == {G \in AllTrees : BHash(G) % BMod = BRem}
 
 (* ---- topology of the results of the transformations ------------------------- *)
@@ -76,8 +81,6 @@ Multi(act, k) == /\ Live
                  /\ \E G \in Multifurcated(h.A, k) : h' = [h EXCEPT !.A = G]
                  /\ HLog(act, <<>>, NoObs)
 
-TipSeq == SetToSeq(Tips)
-TipRank(t) == CHOOSE i \in 1..Len(TipSeq) : TipSeq[i] = t
 Swap(act, x, y) == /\ Live /\ TipRank(x) < TipRank(y)      \* each unordered pair once
                    /\ h' = [h EXCEPT !.A = Swapped(h.A, x, y)]
                    /\ HLog(act, <<x, y>>, NoObs)
